@@ -176,8 +176,32 @@ def files(ctx: Ctx):
         if i % 2 == 0:
             d['opts']['sequences_only'] = True
         designs.append(d)
+    # a deliberate class (own generator state): two designs of one amplicon - the same range and strand, another target region or other
+    # extensions (in a full run the twin lists no guide, so that its files have another name)
+    import random
+    r2 = random.Random(f'C18-twin-amplicon-{ctx.seed}')
+    for i in range(max(6, n // 10)):
+        d = gen.gen_sge(r2, {'p_bg': 0.0, 'p_gtf': 0.0, 'p_pam': 1.0 if i % 3 == 2 else 0.0, 'p_custom': 0.0, 'allow_junction_pam': False, 't_min': 12})
+        t = r2.choice(d['targetons'])
+        a, b = t['ref_start'], t['ref_end']
+        for _ in range(50):
+            p_ = r2.randint(a, b)
+            q_ = r2.randint(p_, b)
+            ext = [r2.randint(0, p_ - a), r2.randint(0, b - q_)]
+            if (p_, q_, ext) != (t['r2_start'], t['r2_end'], list(t['ext'])):
+                break
+        twin = dict(copy.deepcopy(t), r2_start=p_, r2_end=q_, ext=ext, action=['', r2.choice(['snv', '1del', 'snv, 1del']), ''], sgrna=[])
+        full = i % 3 == 2 and bool(t.get('sgrna'))
+        if not full:
+            d['opts']['sequences_only'] = True
+        k = d['targetons'].index(t)
+        d['targetons'].insert(k + r2.choice([0, 1]) if r2.random() < 0.7 else len(d['targetons']), twin)
+        d['c18_kind'] = 'twin_amplicon'
+        designs.append(d)
     for d, r in pool_map(design_case, designs):
         ctx.count('designs_seqonly' if d['opts'].get('sequences_only') else 'designs_full')
+        if d.get('c18_kind'):
+            ctx.count('designs_' + d['c18_kind'])
         check_design(ctx, d, r)
     ctx.sample({'targetons': designs[0]['targetons']})
 
